@@ -45,9 +45,9 @@ import (
 // ---- what the source chain is -------------------------------------------------------
 
 type stateObs struct {
-	H              int64  `json:"h"`                // state after this height
-	Validators     string `json:"validators"`       // wire bytes (hex) of State.Validators: the set in force at h+1
-	LastValidators string `json:"last_validators"`  // the set in force at h
+	H              int64  `json:"h"`               // state after this height
+	Validators     string `json:"validators"`      // wire bytes (hex) of State.Validators: the set in force at h+1
+	LastValidators string `json:"last_validators"` // the set in force at h
 	AppHash        string `json:"app_hash"`
 	ReceiptsHash   string `json:"receipts_hash"`
 	LastBlockID    string `json:"last_block_id"`
@@ -145,7 +145,7 @@ func init() {
 
 type adminOp struct {
 	Cmd     gtypes.ValidatorCmd
-	Target  int   // 0 = V0, 1.. = harness validators
+	Target  int // 0 = V0, 1.. = harness validators
 	Power   int64
 	Signers []int // who signs besides V0 (V0 always signs: it holds > 2/3)
 }
